@@ -904,6 +904,61 @@ fn c05(r: &mut Rng, fonts: &[FontInfo], n: u64, tr: &mut Option<std::fs::File>) 
             }
         }
     }
+    // (a2) one buffer recycled ACROSS faces: every step may use another font; nothing a face-specific call
+    //      leaves in the buffer (a cached glyph id, a property derived from the font) may reach the next call
+    for i in 0..(n / 2).max(8) {
+        let steps = r.range(2, 5) as usize;
+        let mut plan: Vec<(&FontInfo, Req)> = Vec::new();
+        for _ in 0..steps {
+            let fi = match r.below(8) {
+                0 => &alias,
+                1 => &randf,
+                _ => &fonts[r.below(fonts.len() as u64) as usize],
+            };
+            let mut rq = gen_req_s(r, fi, 12);
+            // default ignorables in most texts (hidden with a glyph of the face, or removed)
+            if !rq.text.is_empty() && r.chance(3, 4) {
+                let at = r.below(rq.text.len() as u64 + 1) as usize;
+                let cl = if at < rq.text.len() { rq.text[at].1 } else { rq.text[rq.text.len() - 1].1 };
+                rq.text.insert(at, (*r.pick(&[0x00ADu32, 0x200C, 0x200D, 0x034F, 0x2060, 0x200B]), cl));
+            }
+            plan.push((fi, rq));
+        }
+        trace(tr, &format!("cross-face {} history of {}", i, plan.len()));
+        let faces: Vec<Option<Face>> = plan.iter().map(|(fi, _)| Face::from_slice(&fi.data, 0)).collect();
+        if faces.iter().any(|f| f.is_none()) {
+            continue;
+        }
+        let res = catch(std::panic::AssertUnwindSafe(|| {
+            let mut ub = UnicodeBuffer::new();
+            let mut outs = Vec::new();
+            for (k, (_, rq)) in plan.iter().enumerate() {
+                let face = faces[k].as_ref().unwrap();
+                ub = fill(rq, ub);
+                let feats = features_of(rq);
+                let gb = rustybuzz::shape(face, &feats, ub);
+                outs.push(collect(face, &gb));
+                ub = gb.clear();
+            }
+            outs
+        }));
+        let Ok(outs) = res else { continue };
+        for (k, (fi, rq)) in plan.iter().enumerate() {
+            cnt.evals += 1;
+            let face = faces[k].as_ref().unwrap();
+            let fresh = catch(std::panic::AssertUnwindSafe(|| shape_req(face, rq)));
+            let Ok(fresh) = fresh else { continue };
+            if k > 0 {
+                cnt.nontrivial += 1;
+            }
+            if fresh != outs[k] {
+                let hist: Vec<String> = plan[..k].iter().map(|(f, q)| format!("{}:n={}", f.path.rsplit('/').next().unwrap_or(""), q.text.len())).collect();
+                cnt.fail("C05", "recycled-across-faces-differs", &fi.path, rq, &format!("step={} history=[{}] fresh={} recycled={}", k, hist.join(","), fmt_g(&fresh[..fresh.len().min(8)]), fmt_g(&outs[k][..outs[k].len().min(8)])));
+                break;
+            }
+        }
+        cnt.bump("cross_face_histories");
+    }
     // (b) threads sharing Face and ShapePlan
     let nthreads = 8;
     for round in 0..(n / 20).max(4) {
@@ -1017,6 +1072,14 @@ fn c01(r: &mut Rng, fonts: &[FontInfo], n: u64, tr: &mut Option<std::fs::File>, 
     for i in 0..n {
         let fi = &fonts[r.below(fonts.len() as u64) as usize];
         let mut req = gen_req_s(r, fi, 40);
+        // cluster values at the top of the 32-bit range now and then (non-decreasing numbering kept)
+        if r.chance(1, 12) && !req.text.is_empty() {
+            let n = req.text.len();
+            let k = 1 + r.below(n.min(3) as u64) as usize;
+            for j in 0..k {
+                req.text[n - 1 - j].1 = u32::MAX - j as u32;
+            }
+        }
         match r.below(16) {
             0 => req.lang = Some((*r.pick(&langs)).to_string()),
             1 => {
@@ -1193,6 +1256,24 @@ fn c01gen(tr: &mut Option<std::fs::File>) {
         // the same with GPOS after an emptied buffer
         f.gpos = Some(Layout::single_feature(*b"kern", vec![Lookup::one(PosSubtable::Single1 { coverage: Coverage::Glyphs(vec![1, 2]), value: ValueRecord::xadv(10), vf: ValueFormat::NonZero })]));
         run_case("delete-all-then-gpos", &f, Req { text: text_of(3, &[pua(0)]), flags: 3, ..Default::default() }, &mut cnt, tr);
+    }
+    // 3d. morx with a feat table and range-restricted user features, cluster values at the very top of the
+    //     32-bit range (the per-chain feature ranges must cover every cluster value)
+    {
+        let mut f = FontSpec::basic(12);
+        f.feat = Some(Feat { names: vec![FeatName { feature: 37, settings: vec![0, 1], exclusive: true, default_index: None }, FeatName { feature: 1, settings: vec![2, 3, 4, 5], exclusive: false, default_index: None }] });
+        let nonctx = |flags: u32| MorxSubtable { coverage: 0, sub_feature_flags: flags, kind: MorxKind::NonContextual(AatLookup::new(6, (1..6u16).map(|g| (g, g + 5)).collect())) };
+        f.morx = Some(Morx { version: 2, chains: vec![MorxChain { default_flags: 0, features: vec![MorxFeature { feature_type: 37, feature_setting: 1, enable_flags: 1, disable_flags: 0xFFFF_FFFF }, MorxFeature { feature_type: 1, feature_setting: 2, enable_flags: 2, disable_flags: 0xFFFF_FFFF }], subtables: vec![nonctx(1), nonctx(2)] }] });
+        for feats in [vec!["smcp[1:3]"], vec!["smcp[0:2]", "liga[2:9]"], vec!["smcp[4294967294:4294967295]"], vec!["liga[1:4294967295]", "smcp[3:4]"]] {
+            for top in [0u32, 1, 2] {
+                // clusters 0,1,2,... with the last `top` ones at u32::MAX - 1, u32::MAX
+                let n = 5usize;
+                let text: Vec<(u32, u32)> = (0..n).map(|i| (pua(i as u32 % 4), if i + (top as usize) >= n { u32::MAX - (n - 1 - i) as u32 } else { i as u32 })).collect();
+                for level in [0u8, 2] {
+                    run_case("morx-feat-ranges-top-clusters", &f, Req { text: text.clone(), flags: 3, level, features: feats.iter().map(|x| x.to_string()).collect(), ..Default::default() }, &mut cnt, tr);
+                }
+            }
+        }
     }
     // 4a. nested ligatures: 15 x a -> L1, then 18 x L1 -> L2 (270 components: beyond every 8-bit counter);
     //     very wide advances (the serializer sums them)
